@@ -886,3 +886,289 @@ Example validate_rec_ex :
   validate_rec objs ex_classes ex_heap_list 4 [] 0%nat = Some (VErr [2; 1; 0]%nat) /\
   validate_rec objs ex_classes ex_heap_ok 4 [] 0%nat = Some (VOk [2; 1; 0]%nat).
 Proof. split; vm_compute; reflexivity. Qed.
+
+(* ============================ declared defaults / TypeConfig.__init__ (construction) *)
+Lemma init_fields_typed : forall cl ds defs i skip fs,
+  init_fields cl ds defs i skip = Ok fs ->
+  forall j v, get_field fs j = Some v ->
+    (i <= j)%nat /\ exists d, nth_error ds (j - i) = Some d /\ arg_has_type cl d v.
+Proof.
+  intros cl ds. induction ds as [|d r IH]; intros defs i skip fs H j v Hg; simpl in H.
+  - inversion H; subst. simpl in Hg. discriminate.
+  - destruct (init_fields cl r (tl defs) (S i) skip) as [fs'|] eqn:E; [|discriminate].
+    assert (Tail : forall v0, get_field fs' j = Some v0 ->
+              (i <= j)%nat /\ exists d0, nth_error (d :: r) (j - i) = Some d0 /\ arg_has_type cl d0 v0).
+    { intros v0 Hg0. destruct (IH _ _ _ _ E j v0 Hg0) as [Hle [d0 [Hn Ht]]].
+      split; [lia|]. exists d0. split; [|exact Ht].
+      replace (j - i)%nat with (S (j - S i)) by lia. exact Hn. }
+    assert (Head : forall x, arg_has_type cl d x -> get_field ((i, x) :: fs') j = Some v ->
+              (i <= j)%nat /\ exists d0, nth_error (d :: r) (j - i) = Some d0 /\ arg_has_type cl d0 v).
+    { intros x Hx Hg0. simpl in Hg0. destruct (Nat.eqb i j) eqn:Eij.
+      - apply Nat.eqb_eq in Eij. subst j. inversion Hg0; subst. split; [lia|].
+        exists d. rewrite Nat.sub_diag. split; [reflexivity | exact Hx].
+      - apply Tail. exact Hg0. }
+    destruct (existsb (Nat.eqb i) skip).
+    + inversion H; subst. apply Tail. exact Hg.
+    + destruct (hd None defs) as [dv|].
+      * destruct (assign cl d false true dv) as [x|] eqn:Ea; [|discriminate].
+        inversion H; subst. eapply Head; [eapply assign_sound; exact Ea | exact Hg].
+      * destruct (a_required d) eqn:Er.
+        -- inversion H; subst. apply Tail. exact Hg.
+        -- inversion H; subst. eapply Head; [|exact Hg]. left. split; [reflexivity | exact Er].
+Qed.
+
+(* an assignment keeps every parameter of the configuration typed *)
+Lemma set_preserves_typed : forall cl n k v n' o,
+  cfg_set cl n k v = (n', o) -> fields_typed cl n -> fields_typed cl n'.
+Proof.
+  intros cl n k v n' o H Ht.
+  destruct (assign_stores_or_raises cl n k v n' o H) as [[_ ->]|[_ [d [v' [Hd [Hg [Hty [Hoth [Hc _]]]]]]]]]; [exact Ht|].
+  intros i d0 v0 Hn Hv. rewrite Hc in Hn.
+  destruct (Nat.eq_dec i k) as [->|Hne].
+  - rewrite Hd in Hn. inversion Hn; subst. rewrite Hg in Hv. inversion Hv; subst. exact Hty.
+  - rewrite (Hoth i Hne) in Hv. eapply Ht; eauto.
+Qed.
+
+Lemma set_keeps_class : forall cl n k v n' o, cfg_set cl n k v = (n', o) -> n_cls n' = n_cls n.
+Proof.
+  intros cl n k v n' o H.
+  destruct (assign_stores_or_raises cl n k v n' o H) as [[_ ->]|[_ [d [v' [_ [_ [_ [_ [Hc _]]]]]]]]]; auto.
+Qed.
+
+Lemma set_all_typed : forall cl kw n n',
+  set_all cl n kw = Ok n' -> fields_typed cl n -> fields_typed cl n' /\ n_cls n' = n_cls n.
+Proof.
+  intros cl kw. induction kw as [|[k v] r IH]; intros n n' H Ht; simpl in H.
+  - inversion H; subst. auto.
+  - destruct (cfg_set cl n k v) as [n1 o] eqn:E. destruct o; try discriminate.
+    destruct (IH _ _ H (set_preserves_typed _ _ _ _ _ _ E Ht)) as [H1 H2].
+    split; [exact H1|]. rewrite H2. eapply set_keeps_class; exact E.
+Qed.
+
+(* a configuration that has just been built - defaults, None for what is not
+   required, then the keywords - only holds values of the declared types        *)
+Theorem new_typed : forall cl defs c kw n,
+  cfg_new cl defs c kw = Ok n -> fields_typed cl n /\ n_cls n = c.
+Proof.
+  intros cl defs c kw n. unfold cfg_new.
+  destruct (init_fields cl (class_args cl c) defs 0 (map fst kw)) as [fs|] eqn:E; [|discriminate].
+  intros H. apply set_all_typed in H; [exact H|].
+  intros i d v Hn Hv. unfold cfg_get in Hv. simpl in Hn, Hv.
+  destruct (init_fields_typed _ _ _ _ _ _ E i v Hv) as [_ [d0 [Hn0 Ht]]].
+  rewrite Nat.sub_0_r in Hn0. rewrite Hn in Hn0. inversion Hn0; subst. exact Ht.
+Qed.
+
+Lemma init_fields_get : forall cl ds defs i fs k d dv,
+  init_fields cl ds defs i [] = Ok fs ->
+  nth_error ds k = Some d -> nth_error defs k = Some (Some dv) ->
+  exists x, assign cl d false true dv = Ok x /\ get_field fs (i + k) = Some x.
+Proof.
+  intros cl ds. induction ds as [|d0 r IH]; intros defs i fs k d dv H Hd Hdv.
+  - destruct k; discriminate.
+  - simpl in H. destruct (init_fields cl r (tl defs) (S i) []) as [fs'|] eqn:E; [|discriminate].
+    simpl in H. destruct k as [|k].
+    + simpl in Hd. inversion Hd; subst d0. destruct defs as [|x0 defs]; [discriminate|].
+      simpl in Hdv. inversion Hdv; subst x0. simpl in H.
+      destruct (assign cl d false true dv) as [x|]; [|discriminate].
+      inversion H; subst. exists x. split; [reflexivity|]. simpl.
+      rewrite Nat.add_0_r, Nat.eqb_refl. reflexivity.
+    + simpl in Hd. destruct defs as [|x0 defs]; [discriminate|]. simpl in Hdv. simpl in E.
+      destruct (IH _ _ _ _ _ _ E Hd Hdv) as [x [Ha Hg]].
+      exists x. split; [exact Ha|].
+      replace (i + S k)%nat with (S i + k)%nat by lia.
+      assert (Hne : Nat.eqb i (S i + k) = false) by (apply Nat.eqb_neq; lia).
+      simpl in H. destruct x0 as [dv0|].
+      * destruct (assign cl d0 false true dv0) as [x1|]; [|discriminate].
+        inversion H; subst. simpl. simpl in Hne. rewrite Hne. exact Hg.
+      * destruct (a_required d0); inversion H; subst; [exact Hg|].
+        simpl. simpl in Hne. rewrite Hne. exact Hg.
+Qed.
+
+Lemma assign_bypass_not_none : forall cl d dv,
+  dv <> VNone -> assign cl d false true dv = validate cl (a_ty d) dv.
+Proof.
+  intros cl d dv Hn. unfold assign, assign_gen. simpl.
+  destruct (is_none dv) eqn:E; [apply is_none_true in E; contradiction | reflexivity].
+Qed.
+
+(* a parameter that was never assigned holds its declared default AFTER the
+   documented coercions (integral float -> int, int -> float, str -> path, at any
+   depth), not the default as it was written                                     *)
+Theorem new_default_coerced : forall cl defs c n i d dv x,
+  cfg_new cl defs c [] = Ok n ->
+  nth_error (class_args cl c) i = Some d -> nth_error defs i = Some (Some dv) ->
+  dv <> VNone -> coerced cl (a_ty d) dv x ->
+  cfg_get n i = Some x.
+Proof.
+  intros cl defs c n i d dv x H Hd Hdv Hnn Hco. unfold cfg_new in H. simpl in H.
+  destruct (init_fields cl (class_args cl c) defs 0 []) as [fs|] eqn:E; [|discriminate].
+  inversion H; subst. unfold cfg_get. simpl.
+  destruct (init_fields_get _ _ _ _ _ _ _ _ E Hd Hdv) as [y [Ha Hg]].
+  rewrite assign_bypass_not_none in Ha by exact Hnn.
+  rewrite (validate_coerces _ _ _ _ Hco) in Ha. inversion Ha; subst. exact Hg.
+Qed.
+
+(* ... and it is exactly what assigning the default would store: C().x and
+   C(); c.x = default cannot be told apart                                       *)
+Theorem new_default_as_assigned : forall cl defs c n i d dv n0,
+  cfg_new cl defs c [] = Ok n ->
+  nth_error (class_args cl c) i = Some d -> nth_error defs i = Some (Some dv) ->
+  a_generated d = false -> a_constant d = false ->
+  n_cls n0 = c -> n_sealed n0 = false ->
+  exists n1, cfg_set cl n0 i dv = (n1, Stored) /\ cfg_get n1 i = cfg_get n i.
+Proof.
+  intros cl defs c n i d dv n0 H Hd Hdv Hg Hc Hcls Hs. unfold cfg_new in H. simpl in H.
+  destruct (init_fields cl (class_args cl c) defs 0 []) as [fs|] eqn:E; [|discriminate].
+  inversion H; subst n. clear H.
+  destruct (init_fields_get _ _ _ _ _ _ _ _ E Hd Hdv) as [y [Ha Hgf]].
+  unfold cfg_set. rewrite Hcls, Hd.
+  assert (Ha' : assign cl d (n_sealed n0) false dv = Ok y).
+  { rewrite Hs. unfold assign, assign_gen in *. rewrite Hg, Hc. simpl in *. exact Ha. }
+  rewrite Ha'. eexists. split; [reflexivity|]. unfold cfg_get. simpl.
+  rewrite get_set_same. symmetry. exact Hgf.
+Qed.
+
+(* ======================================================= sessions (histories) *)
+Lemma nth_upd_same : forall (A : Type) (l : list A) i x y,
+  nth_error l i = Some y -> nth_error (upd_nth l i x) i = Some x.
+Proof.
+  intros A l. induction l as [|a r IH]; intros i x y H; destruct i; simpl in *; try discriminate.
+  - reflexivity.
+  - eapply IH; exact H.
+Qed.
+
+Lemma nth_upd_other : forall (A : Type) (l : list A) i j x,
+  i <> j -> nth_error (upd_nth l i x) j = nth_error l j.
+Proof.
+  intros A l. induction l as [|a r IH]; intros i j x H; destruct i, j; simpl; try reflexivity.
+  - congruence.
+  - apply IH. congruence.
+Qed.
+
+Lemma heap_typed_upd : forall cl h m n,
+  heap_typed cl h -> fields_typed cl n -> heap_typed cl (upd_nth h m n).
+Proof.
+  intros cl h m n Hh Hn j nj Hj.
+  destruct (Nat.eq_dec m j) as [->|Hne].
+  - destruct (nth_error h j) as [y|] eqn:E.
+    + rewrite (nth_upd_same _ h j n y E) in Hj. inversion Hj; subst. exact Hn.
+    + assert (L : forall (l : list node) i x, nth_error l i = None -> nth_error (upd_nth l i x) i = None).
+      { induction l as [|a r IH]; intros i x H; destruct i; simpl in *; try discriminate; auto. }
+      rewrite (L _ _ _ E) in Hj. discriminate.
+  - rewrite nth_upd_other in Hj by exact Hne. eapply Hh; exact Hj.
+Qed.
+
+(* in a history of assignments, submits and validations the parameters only ever
+   hold values of their declared types                                          *)
+Theorem sess_step_typed : forall cl s o s' r,
+  sess_step cl s o = (s', r) -> heap_typed cl (s_heap s) -> heap_typed cl (s_heap s').
+Proof.
+  intros cl s o s' r H Ht. destruct o as [root init|root|m k v]; simpl in H.
+  - destruct (nth_error (s_heap s) root) as [n|] eqn:En; [|inversion H; subst; exact Ht].
+    destruct (mem root (s_jobs s) || negb (class_task cl (n_cls n))); [inversion H; subst; exact Ht|].
+    destruct (submit cl (upd_nth (s_heap s) root (set_init n init)) (s_reg s) root) as [reg' v].
+    inversion H; subst. simpl. apply heap_typed_upd; [exact Ht|].
+    intros i d v0 Hn Hv. eapply (Ht _ _ En); eauto.
+  - inversion H; subst. exact Ht.
+  - destruct (nth_error (s_heap s) m) as [n|] eqn:En; [|inversion H; subst; exact Ht].
+    destruct (cfg_set cl n k (stamp (s_jobs s) v)) as [n' o] eqn:Es.
+    destruct o; inversion H; subst; try exact Ht. simpl.
+    apply heap_typed_upd; [exact Ht|]. eapply set_preserves_typed; [exact Es | eapply Ht; exact En].
+Qed.
+
+Theorem sess_run_typed : forall cl ops s,
+  heap_typed cl (s_heap s) -> heap_typed cl (s_heap (sess_run cl s ops)).
+Proof.
+  intros cl ops. induction ops as [|o r IH]; intros s Ht; simpl; [exact Ht|].
+  apply IH. destruct (sess_step cl s o) as [s' v] eqn:E. simpl. eapply sess_step_typed; eauto.
+Qed.
+
+(* submit fails fast whatever happened before: whichever objects already "have a
+   job" (in particular a task whose own submit was rejected and which was then
+   given as a parameter), a required value missing anywhere below the submitted
+   task makes submit raise, and nothing is registered                           *)
+Theorem session_missing_rejected : forall cl s root init n m,
+  nth_error (s_heap s) root = Some n ->
+  let h' := upd_nth (s_heap s) root (set_init n init) in
+  reach objs cl h' root m -> lacks_required cl h' m ->
+  exists s', sess_step cl s (OSubmit root init) = (s', Rejected) /\ s_reg s' = s_reg s.
+Proof.
+  intros cl s root init n m En h' Hr Hl. simpl. rewrite En.
+  destruct (mem root (s_jobs s) || negb (class_task cl (n_cls n))).
+  - exists s. split; reflexivity.
+  - fold h'. rewrite (missing_rejected cl h' (s_reg s) root m Hr Hl).
+    eexists. split; reflexivity.
+Qed.
+
+(* the scenario: t1 = TK() lacks its required value, t1.submit() raises (its job flag
+   stays set); t2.t = t1 is accepted by the assignment; t2.submit() must raise      *)
+Definition ex_cl_pipe : classes :=
+  [ {| c_parents := []; c_task := true;
+       c_args := [ {| a_ty := TInt; a_required := true; a_generated := false; a_constant := false |};
+                   {| a_ty := TObj 0; a_required := false; a_generated := false; a_constant := false |} ] |} ].
+Definition ex_sess_pipe : session :=
+  {| s_heap := [ mk 0 [(0%nat, VInt 1); (1%nat, VNone)]; mk 0 [(1%nat, VNone)] ];
+     s_jobs := []; s_reg := [] |}.
+
+Example failed_task_as_parameter_rejected :
+  let s1 := fst (sess_step ex_cl_pipe ex_sess_pipe (OSubmit 1 [])) in
+  let s2 := fst (sess_step ex_cl_pipe s1 (OSet 0 1 (VObj 1 0 false))) in
+  snd (sess_step ex_cl_pipe ex_sess_pipe (OSubmit 1 [])) = Rejected /\ s_jobs s1 = [1%nat] /\
+  snd (sess_step ex_cl_pipe s1 (OSet 0 1 (VObj 1 0 false))) = Accepted /\
+  cfg_get (nth 0 (s_heap s2) (mk 0 [])) 1 = Some (VObj 1 0 true) /\
+  sess_step ex_cl_pipe s2 (OSubmit 0 []) = ({| s_heap := s_heap s2; s_jobs := [0; 1]%nat; s_reg := [] |}, Rejected) /\
+  (* before its own submit the task cannot be given at all *)
+  snd (sess_step ex_cl_pipe ex_sess_pipe (OSet 0 1 (VObj 1 0 false))) = Rejected.
+Proof. vm_compute. repeat split. Qed.
+
+Example session_missing_rejected_ex :
+  let s1 := fst (sess_step ex_cl_pipe ex_sess_pipe (OSubmit 1 [])) in
+  let s2 := fst (sess_step ex_cl_pipe s1 (OSet 0 1 (VObj 1 0 false))) in
+  exists n, nth_error (s_heap s2) 0 = Some n /\
+    reach objs ex_cl_pipe (upd_nth (s_heap s2) 0 (set_init n [])) 0 1 /\
+    lacks_required ex_cl_pipe (upd_nth (s_heap s2) 0 (set_init n [])) 1.
+Proof.
+  vm_compute. eexists. split; [reflexivity|]. split.
+  - eapply reach_step; [apply reach_refl|]. eexists. split; [reflexivity|]. left.
+    exists 1%nat. eexists. eexists. split; [reflexivity|]. split; [reflexivity|]. simpl. auto.
+  - eexists. exists 0%nat. eexists. split; [reflexivity|]. split; [reflexivity|].
+    split; [reflexivity|]. split; [reflexivity|]. left. reflexivity.
+Qed.
+
+(* defaults: Param[float] = 1 holds 1.0, Param[List[float]] = [1, 2] holds [1.0, 2.0],
+   Param[Path] = "data" holds Path("data"); a default the type refuses is refused at
+   declaration                                                                       *)
+Definition ex_cl_def : classes :=
+  [ {| c_parents := []; c_task := false;
+       c_args := [ {| a_ty := TFloat; a_required := false; a_generated := false; a_constant := false |};
+                   {| a_ty := TList TFloat; a_required := false; a_generated := false; a_constant := false |};
+                   {| a_ty := TPath; a_required := false; a_generated := false; a_constant := false |};
+                   {| a_ty := TInt; a_required := true; a_generated := false; a_constant := false |} ] |} ].
+Definition ex_defs : list (option value) :=
+  [ Some (VInt 1); Some (VList [VInt 1; VInt 2]); Some (VStr "data"); None ].
+
+Example new_default_ex :
+  exists n, cfg_new ex_cl_def ex_defs 0 [] = Ok n /\
+    cfg_get n 0 = Some (VFloat (FInt 1)) /\
+    cfg_get n 1 = Some (VList [VFloat (FInt 1); VFloat (FInt 2)]) /\
+    cfg_get n 2 = Some (VPath "data") /\ cfg_get n 3 = None.
+Proof. eexists. vm_compute. repeat split. Qed.
+
+Example new_keyword_ex :
+  exists n, cfg_new ex_cl_def ex_defs 0 [(3%nat, VFloat (FInt 7)); (0%nat, VFloat (FFrac 5))] = Ok n /\
+    cfg_get n 0 = Some (VFloat (FFrac 5)) /\ cfg_get n 3 = Some (VInt 7) /\
+    cfg_new ex_cl_def ex_defs 0 [(3%nat, VStr "a")] = Err.
+Proof. eexists. vm_compute. repeat split. Qed.
+
+Example default_refused_ex :
+  declare_default ex_cl_def (AList AInt) (Some (VList [VStr "a"])) = None /\
+  declare_default ex_cl_def (AList AInt) (Some (VList [VFloat (FInt 2)])) =
+    Some {| a_ty := TList TInt; a_required := false; a_generated := false; a_constant := false |}.
+Proof. vm_compute. split; reflexivity. Qed.
+
+Example new_default_coerced_ex : coerced ex_cl_def (TList TFloat) (VList [VInt 1; VInt 2]) (VList [VFloat (FInt 1); VFloat (FInt 2)]).
+Proof.
+  simpl. eexists. eexists. split; [reflexivity|]. split; [reflexivity|].
+  apply Forall2_cons; [right; eexists; split; reflexivity|].
+  apply Forall2_cons; [right; eexists; split; reflexivity|]. apply Forall2_nil.
+Qed.
